@@ -375,3 +375,132 @@ def normalize (ec : ECtx) : Op → Op
     if ec.c.batch then .dropTableComment ec.table ex ec.schema else .dropTableComment t ex s
 
 end Model.Render
+
+/-! ## `create_table`: columns, inline constraints, table-level keywords -/
+
+namespace Model.Render
+open Model.Py
+
+inductive ConsKind where
+  | pk | fk | uq | ck
+  deriving DecidableEq, Repr
+
+def consKindOf (w : Str) : Option ConsKind :=
+  if w = S "PrimaryKeyConstraint" then some .pk
+  else if w = S "ForeignKeyConstraint" then some .fk
+  else if w = S "UniqueConstraint" then some .uq
+  else if w = S "CheckConstraint" then some .ck
+  else none
+
+/-- `name=…` of an inline constraint: absent = unnamed -/
+def evalNameKw (c : Ctx) (items : List Item) : Option GenName :=
+  match kwArg (S "name") items with
+  | none => some .none
+  | some v => evalGenName c v
+
+/-- `sa.PrimaryKeyConstraint('a', …, name=…)`, `sa.ForeignKeyConstraint([..], [..], name=…, **opts)`,
+`sa.UniqueConstraint('a', …, deferrable=…, initially=…, name=…, **kw)`, `sa.CheckConstraint('sql', name=…)` -/
+def evalCons (c : Ctx) : PyAst → Option Cons
+  | .call fn _ items =>
+    match stripPrefix c.saPrefix fn with
+    | some w =>
+      match consKindOf w, evalNameKw c items with
+      | some .pk, some n => ((posArgs items).mapM evalStr).map fun cols => .pk n cols
+      | some .fk, some n =>
+        match posArgs items with
+        | [l, r] =>
+          match evalStrList l, evalStrList r with
+          | some lc, some rc => some (.fk n lc rc (otherKw [S "name"] items))
+          | _, _ => none
+        | _ => none
+      | some .uq, some n =>
+        ((posArgs items).mapM evalStr).map fun cols =>
+          .uq n cols (kwArg (S "deferrable") items) (kwArg (S "initially") items)
+            (otherKw [S "deferrable", S "initially", S "name"] items)
+      | some .ck, some n =>
+        match posArgs items with
+        | [.str sqltext] => some (.ck n sqltext)
+        | _ => none
+      | _, _ => none
+    | none => none
+  | _ => none
+
+def isColumnCall (c : Ctx) : PyAst → Bool
+  | .call fn _ _ => fn = c.saPrefix ++ S "Column"
+  | _ => false
+
+/-- the positional arguments after the table name: `sa.Column(...)` items and constraint items, in any order -/
+def evalTableArgs (c : Ctx) : List PyAst → Option (List Col × List Cons)
+  | [] => some ([], [])
+  | e :: r =>
+    match evalTableArgs c r with
+    | none => none
+    | some (cs, ks) =>
+      if isColumnCall c e then (evalCol c e).map fun col => (col :: cs, ks)
+      else (evalCons c e).map fun k => (cs, k :: ks)
+
+def tableKnown : List Str := [S "schema", S "comment", S "if_not_exists"]
+
+def evalCreateTable (ec : ECtx) (items : List Item) : Option Op :=
+  match posArgs items with
+  | .str name :: rest =>
+    match evalTableArgs ec.c rest, kwOpt items "schema" evalStr, kwOpt items "comment" evalStr,
+          kwOpt items "if_not_exists" evalBool with
+    | some (cols, cons), some schema, some comment, some ine =>
+      some (.createTable name schema cols cons comment (otherKw tableKnown items) ine)
+    | _, _, _, _ => none
+  | _ => none
+
+/-- `evalCall` extended with `create_table` -/
+def evalCallT (ec : ECtx) : PyAst → Option Op
+  | .call fn lay items =>
+    match stripPrefix ec.c.op fn with
+    | some w =>
+      match directiveOf w with
+      | some .createTable => evalCreateTable ec items
+      | _ => evalCall ec (.call fn lay items)
+    | none => none
+  | e => evalCall ec e
+
+/-! ### `normalize` for `create_table`
+
+* columns as `normCol`;
+* a constraint name that is falsy (`''`) is no name; a primary key constraint without columns is not rendered;
+* the inline constraints come back **in the order of their rendered text** (`sorted(...)` in `_add_table`): the
+  *set* of constraints is the same, the order of the constraint clauses of CREATE TABLE is not part of what
+  `invoke` means (SQLAlchemy orders them itself), and the exec-vs-invoke oracle compares them as a set;
+* falsy schema / comment are `None`. -/
+
+def normName : GenName → GenName
+  | .plain [] => .none
+  | n => n
+
+def normCons : Cons → Cons
+  | .pk n cols => .pk (normName n) cols
+  | .fk n l r opts => .fk (normName n) l r opts
+  | .uq n cols d i kws => .uq (normName n) cols d i kws
+  | .ck n s => .ck (normName n) s
+
+def consRenders : Cons → Bool
+  | .pk _ [] => false
+  | _ => true
+
+/-- total version of `renderCons` (equal to it on every constraint that is rendered) -/
+def renderConsD (c : Ctx) (k : Cons) : PyAst := (renderCons c k).getD pyNone
+
+def insertByG {α : Type} (key : α → List Char) (x : α) : List α → List α
+  | [] => [x]
+  | y :: r => if ltChars (key x) (key y) then x :: y :: r else y :: insertByG key x r
+
+def sortByG {α : Type} (key : α → List Char) : List α → List α
+  | [] => []
+  | x :: r => insertByG key x (sortByG key r)
+
+def normalizeT (ec : ECtx) : Op → Op
+  | .createTable n s cols cons cm kws ine =>
+    .createTable n (truthy s) (cols.map normCol)
+      ((sortByG (fun k => pp ec.c.isP (renderConsD ec.c k)) (cons.filter consRenders)).map normCons)
+      (truthy cm) kws ine
+  | o => normalize ec o
+
+end Model.Render
